@@ -276,7 +276,7 @@ func RunMulti(o env.Options, fs []*Fault, action HookAction, do func(e *env.Env)
 		sr.Res = do(e)
 	}()
 	sr.InUse = e.Pool.Stats().InUse
-	for i := 0; sr.InUse != 0 && i < 400; i++ {
+	for i := 0; sr.InUse != 0 && i < 8000; i++ { // up to 4 s, only spent while something is still checked out
 		// database/sql's context watcher releases a cancelled transaction's connection asynchronously
 		time.Sleep(500 * time.Microsecond)
 		sr.InUse = e.Pool.Stats().InUse
